@@ -391,11 +391,14 @@ fn decode_to_sink<Sink, A>(
 {
     loop {
         let mut out = <Tendril<fmt::Bytes, A>>::new();
+        // The estimate does not cover output the decoder still owes from an earlier call
+        // (e.g. the unit that followed a lone UTF-16 surrogate), so never go below a few
+        // code points' worth of space.
         let max_len = decoder
             .max_utf8_buffer_length_without_replacement(input.len())
             .unwrap_or(8192);
         unsafe {
-            out.push_uninitialized(max_len.min(8192) as u32);
+            out.push_uninitialized(max_len.clamp(32, 8192) as u32);
         }
         let (result, bytes_read, bytes_written) =
             decoder.decode_to_utf8_without_replacement(&input, &mut out, last);
@@ -407,16 +410,18 @@ fn decode_to_sink<Sink, A>(
         }
         match result {
             DecoderResult::InputEmpty => return,
+            // No progress at all cannot be retried usefully.
+            DecoderResult::OutputFull if bytes_read == 0 && bytes_written == 0 => return,
             DecoderResult::OutputFull => {},
             DecoderResult::Malformed(_, _) => {
                 sink.error(Cow::Borrowed("invalid sequence"));
                 sink.process(Tendril::from_slice(REPLACEMENT_CHARACTER));
             },
         }
+        // Keep going until the decoder reports `InputEmpty`, even when all input has been
+        // read: after `Malformed` or `OutputFull` it can still hold pending output (e.g. the
+        // byte following a broken ISO-2022-JP escape sequence, flushed at end of stream).
         input.pop_front(bytes_read as u32);
-        if input.is_empty() {
-            return;
-        }
     }
 }
 
